@@ -1208,7 +1208,7 @@ class Realised:
         self.unobservable: Optional[str] = None  # set when a spox internal could not be read
 
 
-def realise(prog, rng: random.Random, style: str = "lazy", twins: bool = False) -> Realised:
+def realise(prog, rng: random.Random, style: str = "lazy", twins: bool = False, dims: str = "concrete") -> Realised:
     """Construct `prog` with spox.  `style` controls *how the program is written in Python*:
 
     lazy            every value is created on first demand (inside whichever callback needs it first,
@@ -1221,6 +1221,9 @@ def realise(prog, rng: random.Random, style: str = "lazy", twins: bool = False) 
                     value is ==-equal but serialises differently (-0.0 / 0.0, np.int64(2) / np.float32(2))
     *-extras        additionally constructs unrequested operators on existing values at random points
                     (in the main program and inside callbacks)
+    dims            how the model inputs are DECLARED: "concrete" (every dimension a number), "symbolic"
+                    (a seeded part of the dimensions a name, e.g. ('d3', 2): known rank, sizes by name) or
+                    "unknown" (… `None`): the property's premise is a known RANK only
     """
     import importlib
 
@@ -1286,7 +1289,11 @@ def realise(prog, rng: random.Random, style: str = "lazy", twins: bool = False) 
             if n["attrs"].get("role") != "main":
                 raise HarnessError(f"formal {k} demanded outside its body (generator bug)")
             t = n["ty"][0]
-            register(k, [argument(Tensor(DT[t[0]], shape_of(t)))])
+            shp = shape_of(t)
+            if dims != "concrete" and not n["attrs"].get("range") == "trip":
+                drng = random.Random(f"{k}:{dims}:{len(nodes)}")
+                shp = tuple((f"d{d_}" if dims == "symbolic" else None) if drng.random() < 0.6 else d_ for d_ in shp)
+            register(k, [argument(Tensor(DT[t[0]], shp))])
             return
         order = [j for j, r in enumerate(n["ins"]) if r is not None]
         if base != "eager":
@@ -2636,3 +2643,44 @@ def _skeleton5(shape, gadget: str, depths: set) -> dict:
 
     out = level(0, (x, 0))
     return {"nodes": nodes, "outputs": [list(out)], "opset": 17}
+
+
+def no_input_programs() -> Iterator[tuple[dict, str]]:
+    """Programs whose requested outputs read NO model input (constants only: at depth 0, inside an If whose
+    condition is a constant, inside a Loop with a constant trip count) while inputs are declared — with
+    `drop_unused_inputs=True` the model has no inputs at all.  Yields (prog, tag)."""
+    V, S, B_ = ty("i64", [N]), ty("i64", []), ty("bool", [])
+    for shape in ("main", "if", "loop", "if-loop"):
+        nodes: list[dict] = []
+
+        def add(op, ins=(), subs=(), attrs=None, tys=()):
+            nodes.append({"op": op, "ins": [list(r) if r else None for r in ins], "subs": list(subs), "attrs": dict(attrs or {}), "ty": [list(t) for t in tys]})
+            return len(nodes) - 1
+
+        add("arg", attrs={"role": "main"}, tys=[V])
+        add("arg", attrs={"role": "main"}, tys=[B_])
+        a = add("Constant", attrs={"value": [1, -2, 3], "uid": 1, "layout": "C"}, tys=[V])
+        b = add("Constant", attrs={"value": [4, 0, -1], "uid": 2, "layout": "C"}, tys=[V])
+        s = (add("Add", [(a, 0), (b, 0)], tys=[V]), 0)
+
+        def iff(t, e):
+            cnd = add("Constant", attrs={"value": [True], "scalar": True, "uid": 3, "layout": "C"}, tys=[B_])
+            return (add("If", [(cnd, 0)], [{"args": [], "res": [list(t)]}, {"args": [], "res": [list(e)]}], tys=[V]), 0)
+
+        def loop(init):
+            two = add("Constant", attrs={"value": [2], "scalar": True, "uid": 4, "layout": "C"}, tys=[S])
+            it = add("arg", attrs={"role": "formal"}, tys=[ty("i64", [], True)])
+            cn = add("arg", attrs={"role": "formal"}, tys=[ty("bool", [], True)])
+            ac = add("arg", attrs={"role": "formal"}, tys=[V])
+            r = add("Add", [(ac, 0), (b, 0)], tys=[V])
+            return (add("Loop", [(two, 0), None, init], [{"args": [it, cn, ac], "res": [[cn, 0], [r, 0]]}], tys=[V]), 0)
+
+        if shape == "main":
+            out = s
+        elif shape == "if":
+            out = iff(s, (a, 0))
+        elif shape == "loop":
+            out = loop(s)
+        else:
+            out = iff(loop(s), (b, 0))
+        yield {"nodes": nodes, "outputs": [list(out)], "opset": 17}, shape
